@@ -80,6 +80,56 @@ func reachFrom(c *Ctx, root *ssa.Function, stop func(*ssa.Function) bool) []*ssa
 	return out
 }
 
+// c07GuardedBy: block blk of fn is unreachable unless the condition holds:
+// options.UseFuzzy is true ("UseFuzzy"), or an emptiness test len(x) == 0 of
+// the lexical stage succeeded ("empty"). When fn's own branches do not
+// establish it, every call site of fn on the search path must.
+func c07GuardedBy(c *Ctx, sx *symx.Ctx, reach []*ssa.Function, entry, fn *ssa.Function, blk *ssa.BasicBlock, need string, emptyOf *[]string, d int) bool {
+	f := sx.Of(fn)
+	cut := map[[2]int]bool{}
+	for _, iff := range ssau.Ifs(fn) {
+		cond := iff.Cond
+		if need == "UseFuzzy" {
+			if optLoad(cond, "UseFuzzy") {
+				cut[[2]int{iff.Block().Index, 0}] = true
+			}
+			continue
+		}
+		op, x, y, ok := ssau.CondOf(cond)
+		if !ok {
+			continue
+		}
+		if lc, isLen := x.(*ssa.Call); isLen && ssau.CallName(lc) == "builtin.len" {
+			if k, isC := ssau.ConstInt(y); isC {
+				switch {
+				case k == 0 && (op == token.EQL || op == token.LEQ), k == 1 && op == token.LSS:
+					cut[[2]int{iff.Block().Index, 0}] = true
+					*emptyOf = append(*emptyOf, f.Plain(lc.Common().Args[0]))
+				case k == 0 && (op == token.NEQ || op == token.GTR), k == 1 && op == token.GEQ:
+					cut[[2]int{iff.Block().Index, 1}] = true
+					*emptyOf = append(*emptyOf, f.Plain(lc.Common().Args[0]))
+				}
+			}
+		}
+	}
+	if len(cut) > 0 && !ssau.ReachableAvoidingEdges(fn, blk, cut) {
+		return true
+	}
+	if fn == entry || d > 3 {
+		return false
+	}
+	n := 0
+	for _, caller := range reach {
+		for _, site := range callsTo(caller, ssau.FuncName(fn)) {
+			n++
+			if !c07GuardedBy(c, sx, reach, entry, caller, site.Block(), need, emptyOf, d+1) {
+				return false
+			}
+		}
+	}
+	return n > 0
+}
+
 func c07Guard(c *Ctx, sx *symx.Ctx, su, pf *ssa.Function) {
 	r := c.R
 	pfName := ssau.FuncName(pf)
@@ -91,39 +141,15 @@ func c07Guard(c *Ctx, sx *symx.Ctx, su, pf *ssa.Function) {
 		if len(calls) == 0 {
 			continue
 		}
-		f := sx.Of(fn)
+		_ = sx.Of(fn)
 		for _, call := range calls {
 			nCalls++
 			key := fmt.Sprintf("%s#fuzzy-call-%d", load.FuncKey(fn), nCalls)
-			// edges establishing UseFuzzy == true
-			cutF := map[[2]int]bool{}
-			cutE := map[[2]int]bool{}
+			// both conditions may be split between the function holding the call and
+			// its callers (a fallback helper tests UseFuzzy, its caller the emptiness)
 			var emptyOf []string
-			for _, iff := range ssau.Ifs(fn) {
-				cond := iff.Cond
-				if optLoad(cond, "UseFuzzy") {
-					cutF[[2]int{iff.Block().Index, 0}] = true
-					continue
-				}
-				op, x, y, ok := ssau.CondOf(cond)
-				if !ok {
-					continue
-				}
-				if lc, isLen := x.(*ssa.Call); isLen && ssau.CallName(lc) == "builtin.len" {
-					if k, isC := ssau.ConstInt(y); isC && k == 0 {
-						switch op {
-						case token.EQL, token.LEQ:
-							cutE[[2]int{iff.Block().Index, 0}] = true
-							emptyOf = append(emptyOf, f.Plain(lc.Common().Args[0]))
-						case token.NEQ, token.GTR:
-							cutE[[2]int{iff.Block().Index, 1}] = true
-							emptyOf = append(emptyOf, f.Plain(lc.Common().Args[0]))
-						}
-					}
-				}
-			}
-			okF := len(cutF) > 0 && !ssau.ReachableAvoidingEdges(fn, call.Block(), cutF)
-			okE := len(cutE) > 0 && !ssau.ReachableAvoidingEdges(fn, call.Block(), cutE)
+			okF := c07GuardedBy(c, sx, reach, su, fn, call.Block(), "UseFuzzy", &emptyOf, 0)
+			okE := c07GuardedBy(c, sx, reach, su, fn, call.Block(), "empty", &emptyOf, 0)
 			r.Check(okF, "O-1", key+":needs-UseFuzzy", c.P.Pos(call.Pos()), "unreachable unless options.UseFuzzy is true", "the typo fallback can run although options.UseFuzzy is false")
 			r.Check(okE, "O-1", key+":needs-empty-lexical-stage", c.P.Pos(call.Pos()), "unreachable unless an emptiness test of the lexical stage succeeded ("+strings.Join(emptyOf, ", ")+")", "the typo fallback can run although the lexical stage produced terms and scored documents: enabling typo tolerance would change an answer that exists")
 			// the query and options are passed through unchanged
